@@ -57,6 +57,9 @@ AcVerdict(ln) ==
      (IF obs \subseteq may THEN {} ELSE {"C03_spurious"})
 \cup (IF q.limit # -1 \/ must \subseteq obs THEN {} ELSE {"C03_missing"})
 \cup (IF \A r \in obs : PlacesExactly(q, r) THEN {} ELSE {"C02_amounts"})
+\* every returned request, written unchanged for a new consumer, is accepted by Apply
+\cup (IF \A r \in obs : (\A p \in DOMAIN r.allocs : p \in Providers(s)) => Apply(s, ClaimReq(r)).resp.status = 204
+      THEN {} ELSE {"C02_unclaimable"})
 \cup (IF \A r \in obs : \A p \in DOMAIN r.allocs : p \in Providers(s) THEN {} ELSE {"C02_unknown_provider"})
 \cup (IF ~withMap \/ \A r \in obs : MappingsOK(q, r) THEN {} ELSE {"C02_mappings"})
 \cup (IF \A p \in provs : p \in DOMAIN ln.body.summaries
